@@ -841,6 +841,17 @@ def _s_discard(ex, st, recv, pos, named, node):
     return [(st, PSet(Store(recv.arr, e, BoolVal(False)), recv.ekind), P_NONE)]
 
 
+@method(PSet, 'remove')
+@_mutating
+def _s_remove(ex, st, recv, pos, named, node):
+    e = _elem(ex, st, recv, pos[0])
+    outs = []
+    for s1, present in ex.fork(st, recv.arr[e], f'L{node.lineno}.setremove'):
+        if present: outs.append((s1, PSet(Store(recv.arr, e, BoolVal(False)), recv.ekind), P_NONE))
+        else: outs.append((s1, recv, ex.raise_(s1, 'KeyError', where='method')))
+    return outs
+
+
 @method(PSet, 'pop')
 @_mutating
 def _s_pop(ex, st, recv, pos, named, node):
